@@ -41,10 +41,45 @@ namespace
     // for the stock time base). Timers with an odd id are of this kind: member-function delegate, arguments (id, 7 - id).
     template <class TT> struct DelegateTimerT : igris::timer_basic<igris::timer_spec<TT>, int, int>
     {
-        DelegateTimerT(TimerWorldT<TT> *w, int id)
-            : igris::timer_basic<igris::timer_spec<TT>, int, int>(igris::make_delegate(&TimerWorldT<TT>::on_delegate, w), int(id), int(7 - id))
+        typedef igris::timer_basic<igris::timer_spec<TT>, int, int> Base;
+        // the three kinds of delegate: member function + object, function with a context pointer, plain function
+        static void ext_thunk(void *w, int id, int check) { ((TimerWorldT<TT> *)w)->on_delegate(id, check); }
+        static TimerWorldT<TT> *&plain_target() { static TimerWorldT<TT> *t = nullptr; return t; }
+        static void plain_thunk(int id, int check) { plain_target()->on_delegate(id, check); }
+        // a handler object with two bases: the bound method comes from the second one, so calling it needs a this-adjustment
+        struct Padding
         {
+            long filler[3] = {1, 2, 3};
+            virtual ~Padding() {}
+        };
+        struct Handler
+        {
+            TimerWorldT<TT> *world = nullptr;
+            long canary = 0x5EC0DBA5;
+            void on_timer(int id, int check)
+            {
+                if (canary != 0x5EC0DBA5 || !world) kit::defer_violation("C16/delegate-this", "%s", "a member-function delegate entered its method with a wrong this pointer");
+                else world->on_delegate(id, check);
+            }
+        };
+        struct Device : Padding, Handler
+        {
+        };
+        static Device &device() { static Device d; return d; }
+        static igris::delegate<void, int, int> make(TimerWorldT<TT> *w, int id)
+        {
+            if ((id / 2) % 4 == 1)
+            {
+                device().world = w;
+                void (Device::*h)(int, int) = &Device::on_timer;
+                return igris::make_delegate(h, &device());
+            }
+            if ((id / 2) % 4 == 0) return igris::make_delegate(&TimerWorldT<TT>::on_delegate, w);
+            if ((id / 2) % 4 == 2) return igris::make_delegate(&ext_thunk, (void *)w);
+            plain_target() = w;
+            return igris::make_delegate(&plain_thunk);
         }
+        DelegateTimerT(TimerWorldT<TT> *w, int id) : Base(make(w, id), int(id), int(7 - id)) {}
     };
 
     template <class TT> struct ModelT
@@ -220,6 +255,7 @@ namespace
 
         void check_state(const char *where)
         {
+            check_deferred();
             for (int i = 0; i < n; i++)
             {
                 if (tim[i]->is_planned() != model[i].planned)
